@@ -38,10 +38,13 @@ func finish(e *sched.Exec, w *schedfx.World) func() {
 			f.latest = append(f.latest, w.Latest(i))
 		}
 		e.Data = f
-		for _, ev := range w.Lst.Stop() {
-			f.events = append(f.events, w.EventStr(ev))
-		}
-		w.Close()
+		e.Guarded("cancel and drain of the listener", func() {
+			evs, _ := w.Lst.StopCheck()
+			for _, ev := range evs {
+				f.events = append(f.events, w.EventStr(ev))
+			}
+		})
+		w.CloseGuarded()
 	}
 }
 
@@ -152,7 +155,9 @@ func perPublisher(prefix string, pi int, lv *schedfx.LogView, f *final, lastAnno
 }
 
 // ---- S1 / S2: burst of announcements to one publisher
-func burst(name string, failBlock int) *sched.Scenario { return burstOf(name, failBlock, []int{1, 2, 3}) }
+func burst(name string, failBlock int) *sched.Scenario {
+	return burstOf(name, failBlock, []int{1, 2, 3})
+}
 
 // burstOf: one thread announces the given chain positions of one publisher in
 // turn. Position 0 is the advertisement that is already the latest synced one
